@@ -312,6 +312,26 @@ pub fn sharing_family(f: &mut dyn FnMut(G)) {
             }
         }
     }
+    // words whose tables coincide as flat number streams although the items differ in kind
+    // (literal id k vs command id k): the word's command must not be the grammar's first one
+    let words2: Vec<E> = vec![
+        E::Word(vec![lit("--level"), E::Opt(Box::new(lit("=high")))]),
+        E::Word(vec![lit("--user="), E::cmd("echo k1")]),
+        E::Word(vec![lit("--mode"), E::Opt(Box::new(E::Word(vec![lit("="), alt(&["fast", "slow"])])))]),
+        E::Word(vec![lit("--who="), E::cmd("echo k2")]),
+        E::Word(vec![lit("--path="), E::r("PATH")]),
+        E::Word(vec![lit("--depth"), E::Opt(Box::new(lit("=1"))), E::Opt(Box::new(lit("k")))]),
+    ];
+    for x in &words2 {
+        for y in &words2 {
+            if x == y {
+                continue;
+            }
+            f(call(E::Alt(vec![x.clone(), y.clone()])));
+            f(call(E::Alt(vec![E::cmd("echo top"), x.clone(), y.clone()])));
+            f(call(E::Alt(vec![E::Seq(vec![E::cmd("echo top"), E::cmd("echo second")]), x.clone(), y.clone()])));
+        }
+    }
     // built-ins / shell-specific definitions at different || levels inside equal shapes (zsh compadd)
     f(G {
         stmts: vec![
